@@ -621,8 +621,19 @@ def _eq_arrays(res, spec, engine_path, got, want, what, extra_conds=()):
                                               % (what, k, float(G), float(F), {a: float(b) for a, b in list(model.items())[:6]})})
                 return
     elif r.verdict == "unknown":
-        res["status"] = common.INCONCLUSIVE
-        res["notes"].append("unknown on %s" % what)
+        # the joint query timed out (e.g. under load): decide element by element with a larger budget
+        res["unknown"] -= 1
+        for k, (g, w) in enumerate(pairs):
+            if g is w:
+                continue
+            r1 = prob.differ(g, w, 60000)
+            res[r1.verdict] += 1
+            if r1.verdict == "sat":
+                res["status"] = common.INCONCLUSIVE
+                res["notes"].append("sat on %s[%d] after a joint timeout (not replayed)" % (what, k))
+            elif r1.verdict == "unknown":
+                res["status"] = common.INCONCLUSIVE
+                res["notes"].append("unknown on %s[%d]" % (what, k))
     rr = prob.reachable(5000)
     if rr.verdict == "unsat":
         res["notes"].append("spurious path")
